@@ -2,20 +2,22 @@
 //! driven over raw TCP by a scripted sequence of steps; after every step the observable HTTP status,
 //! `ConnectionGuard::available_connections()` and the number of handler invocations are printed.
 //!
-//! Input line:  <max> <both|http|ws> <op>.<i>.<hint> ...
+//! Input line:  <max> <both|http|ws|ping> <op>.<i>.<hint> ...      (ping = both + ws ping/pong inactivity close)
 //!   ops  ho hb hr ha hf hx hg   HTTP: open (head + body minus one byte) / last body byte / let the handler go /
 //!                               reset / FIN-close / let go and reset at once / complete GET
 //!        hu (4th field k) burst of k opens on k streams, answer = b<number of 429s>, then all reset
 //!        wo wb we wc wr wl wa wf wg wx   WebSocket: open / bad handshake / reset right after the service call /
 //!                               call parked method / let calls go / close frame / reset / FIN-close / invalid frame /
 //!                               close frame and reset at once
+//!        wi  (mode ping) stop answering the server's pings, keep the socket open and silent until the server has
+//!            closed the session for inactivity: answer c (closed) or o (still open after the bounded wait)
 //!   hint s<N>: a response is expected in this step, afterwards wait (bounded) until N slots are free;
 //!        a<N>: wait (bounded) until N slots are free (a response ends the wait as well)
 //! Output line: one `<status|-|T>:<avail|?>:<handlers>` per step (same format as modelrun/connguard_driver.ml).
 //! `T` = a bounded wait of that step expired.  The guard handle is the clone the server puts into the request
 //! extensions (public API); it is captured by a warm-up call, so with max = 0 it is never seen (`?`).
 use jrv::*;
-use jsonrpsee_server::{ConnectionGuard, RpcModule, Server, ServerConfig};
+use jsonrpsee_server::{ConnectionGuard, PingConfig, RpcModule, Server, ServerConfig};
 use std::collections::HashMap;
 use std::sync::atomic::{AtomicU64, Ordering::SeqCst};
 use std::sync::{Arc, Mutex};
@@ -128,7 +130,125 @@ fn module(shared: Arc<Shared>) -> RpcModule<Arc<Shared>> {
 enum Conn {
 	HttpPartial(Stream, u8),
 	HttpParked(Stream),
-	Ws(Stream),
+	Ws(WsConn),
+}
+
+enum Cmd {
+	Send(Vec<u8>),
+	Close { fin: bool },
+}
+
+/// A WebSocket session of the harness.  The socket is owned by a task that reads whatever the server sends and answers
+/// pings with pongs (so that a server with ws ping enabled keeps the session) -- unless `silent` is set: then it keeps
+/// reading but answers nothing.  Dropping the handle resets the connection.
+struct WsConn {
+	tx: tokio::sync::mpsc::UnboundedSender<Cmd>,
+	silent: Arc<std::sync::atomic::AtomicBool>,
+	eof: Arc<std::sync::atomic::AtomicBool>,
+	task: Option<tokio::task::JoinHandle<()>>,
+}
+
+/// One complete server frame at the start of `buf`: (opcode, payload, bytes used).  Server frames are not masked.
+fn parse_frame(buf: &[u8]) -> Option<(u8, Vec<u8>, usize)> {
+	if buf.len() < 2 {
+		return None;
+	}
+	let op = buf[0] & 0x0f;
+	let masked = buf[1] & 0x80 != 0;
+	let (len, mut off) = match buf[1] & 0x7f {
+		126 => {
+			if buf.len() < 4 {
+				return None;
+			}
+			(u16::from_be_bytes([buf[2], buf[3]]) as usize, 4)
+		}
+		127 => {
+			if buf.len() < 10 {
+				return None;
+			}
+			(u64::from_be_bytes(buf[2..10].try_into().unwrap()) as usize, 10)
+		}
+		n => (n as usize, 2),
+	};
+	if masked {
+		off += 4;
+	}
+	if buf.len() < off + len {
+		return None;
+	}
+	Some((op, buf[off..off + len].to_vec(), off + len))
+}
+
+async fn ws_task(
+	mut s: TcpStream,
+	mut buf: Vec<u8>,
+	mut rx: tokio::sync::mpsc::UnboundedReceiver<Cmd>,
+	silent: Arc<std::sync::atomic::AtomicBool>,
+	eof: Arc<std::sync::atomic::AtomicBool>,
+) {
+	let mut tmp = [0u8; 4096];
+	let mut read_open = true;
+	loop {
+		while let Some((op, payload, used)) = parse_frame(&buf) {
+			buf.drain(..used);
+			if op == 0x9 && !silent.load(SeqCst) && payload.len() < 126 {
+				let _ = s.write_all(&frame(0x8a, &payload)).await;
+			}
+		}
+		tokio::select! {
+			r = s.read(&mut tmp), if read_open => match r {
+				Ok(0) | Err(_) => {
+					eof.store(true, SeqCst);
+					read_open = false;
+				}
+				Ok(n) => buf.extend_from_slice(&tmp[..n]),
+			},
+			c = rx.recv() => match c {
+				Some(Cmd::Send(b)) => {
+					let _ = s.write_all(&b).await;
+				}
+				Some(Cmd::Close { fin: true }) => {
+					drop(s);
+					return;
+				}
+				Some(Cmd::Close { fin: false }) | None => {
+					reset(s);
+					return;
+				}
+			},
+		}
+	}
+}
+
+impl WsConn {
+	/// `rest`: bytes already read after the 101 head.
+	fn new(mut s: Stream, rest: Vec<u8>) -> WsConn {
+		let (tx, rx) = tokio::sync::mpsc::unbounded_channel();
+		let silent = Arc::new(std::sync::atomic::AtomicBool::new(false));
+		let eof = Arc::new(std::sync::atomic::AtomicBool::new(false));
+		let tcp = s.0.take().expect("live stream");
+		let task = tokio::spawn(ws_task(tcp, rest, rx, silent.clone(), eof.clone()));
+		WsConn { tx, silent, eof, task: Some(task) }
+	}
+	fn send(&self, b: Vec<u8>) -> bool {
+		self.tx.send(Cmd::Send(b)).is_ok()
+	}
+	async fn wait_eof(&self, limit: Duration) -> bool {
+		let eof = self.eof.clone();
+		poll_until(|| eof.load(SeqCst), limit).await
+	}
+	/// Close the socket (FIN or RST) and wait until the task has done it.
+	async fn close(mut self, fin: bool) {
+		let _ = self.tx.send(Cmd::Close { fin });
+		if let Some(t) = self.task.take() {
+			let _ = tokio::time::timeout(WAIT, t).await;
+		}
+	}
+}
+
+
+fn head_len(buf: &[u8]) -> Option<usize> {
+	buf.windows(4).position(|w| w == b"\r\n\r\n").map(|p| p + 4)
 }
 
 fn find_head(buf: &[u8]) -> Option<u16> {
@@ -273,6 +393,7 @@ fn ws_call(method: &str, arg: u64, id: u64) -> Vec<u8> {
 }
 
 struct Case {
+	zombies: Vec<WsConn>,
 	wait: Duration,
 	addr: std::net::SocketAddr,
 	shared: Arc<Shared>,
@@ -453,7 +574,8 @@ impl Case {
 				match wait_head_or(&mut s, &mut buf, || false, wait).await {
 					Waited::Status(st) => {
 						if st == 101 {
-							self.conns.insert(i, Conn::Ws(s));
+							let rest = buf[head_len(&buf).unwrap_or(buf.len())..].to_vec();
+							self.conns.insert(i, Conn::Ws(WsConn::new(s, rest)));
 						}
 						st.to_string()
 					}
@@ -476,7 +598,7 @@ impl Case {
 				Some(Conn::Ws(s)) => {
 					let before = sh.started(i);
 					self.next_id += 1;
-					if s.write_all(&ws_call("park", i, self.next_id)).await.is_err() {
+					if !s.send(ws_call("park", i, self.next_id)) {
 						return "EOF".into();
 					}
 					let sh2 = sh.clone();
@@ -493,13 +615,15 @@ impl Case {
 				_ => none,
 			},
 			"wl" | "wg" => match self.conns.remove(&i) {
-				Some(Conn::Ws(mut s)) => {
+				Some(Conn::Ws(s)) => {
 					// close frame with code 1000, or a frame with the reserved opcode 3
 					let f = if op == "wl" { frame(0x88, &[0x03, 0xe8]) } else { frame(0x83, b"x") };
-					if s.write_all(&f).await.is_err() {
+					if !s.send(f) {
 						return "EOF".into();
 					}
-					if drain_to_eof(&mut s, wait).await { none } else { timeout }
+					let ok = s.wait_eof(wait).await;
+					s.close(false).await;
+					if ok { none } else { timeout }
 				}
 				Some(c) => {
 					self.conns.insert(i, c);
@@ -508,12 +632,32 @@ impl Case {
 				None => none,
 			},
 			"wa" | "wf" | "wx" => match self.conns.remove(&i) {
-				Some(Conn::Ws(mut s)) => {
+				Some(Conn::Ws(s)) => {
 					if op == "wx" {
-						let _ = s.write_all(&frame(0x88, &[0x03, 0xe8])).await;
+						let _ = s.send(frame(0x88, &[0x03, 0xe8]));
 					}
-					if op == "wf" { s.fin() } else { drop(s) }
+					s.close(op == "wf").await;
 					none
+				}
+				Some(c) => {
+					self.conns.insert(i, c);
+					none
+				}
+				None => none,
+			},
+			// ws ping enabled on the server: stop answering pings, keep the TCP connection open, send nothing, until
+			// the server has closed the connection (c) or the bounded wait is over (o: the socket stays open and silent
+			// until the end of the case)
+			"wi" => match self.conns.remove(&i) {
+				Some(Conn::Ws(s)) => {
+					s.silent.store(true, SeqCst);
+					if s.wait_eof(wait).await {
+						s.close(false).await;
+						"c".into()
+					} else {
+						self.zombies.push(s);
+						"o".into()
+					}
 				}
 				Some(c) => {
 					self.conns.insert(i, c);
@@ -573,6 +717,14 @@ async fn run_case(line: &str) -> String {
 	cfg = match mode.as_str() {
 		"http" => cfg.http_only(),
 		"ws" => cfg.ws_only(),
+		// the server pings every 50 ms and closes a session that has been inactive (no pong, no message) for more than
+		// 400 ms at one of its 50 ms checks
+		"ping" => cfg.enable_ws_ping(
+			PingConfig::new()
+				.ping_interval(Duration::from_millis(50))
+				.inactive_limit(Duration::from_millis(400))
+				.max_failures(1),
+		),
 		_ => cfg,
 	};
 	// The listening port is picked below the ephemeral range (32768..): `bind(port 0)` needs a port with no socket at
@@ -602,7 +754,7 @@ async fn run_case(line: &str) -> String {
 		Err(e) => return format!("?addr {}", e),
 	};
 	let handle = server.start(module(shared.clone()));
-	let mut case = Case { wait: WAIT, addr, shared: shared.clone(), conns: HashMap::new(), next_id: 0 };
+	let mut case = Case { zombies: Vec::new(), wait: WAIT, addr, shared: shared.clone(), conns: HashMap::new(), next_id: 0 };
 	let mut out: Vec<String> = Vec::new();
 	if !warm_up(&mut case, &mode, max).await {
 		out.push("T-warmup".into());
@@ -638,6 +790,7 @@ async fn run_case(line: &str) -> String {
 	// tear down: let every parked handler go, drop every stream, stop the server
 	shared.open_all();
 	case.conns.clear();
+	case.zombies.clear();
 	let _ = handle.stop();
 	let _ = tokio::time::timeout(WAIT, handle.stopped()).await;
 	out.join(" ")
